@@ -17,6 +17,14 @@ def tokz (s : String) : Array String := Id.run do
 def farr (t : Array String) (pos : Nat) : Array Float × Nat :=
   let n := t[pos]!.toNat!
   ((Array.ofFn (n := n) fun i => fb t[pos + 1 + i.val]!), pos + 1 + n)
+def farrs (t : Array String) (pos : Nat) : Array (Array Float) × Nat := Id.run do
+  let k := t[pos]!.toNat!
+  let mut p := pos + 1
+  let mut acc : Array (Array Float) := #[]
+  for _ in [0:k] do
+    let (v, p') := farr t p
+    acc := acc.push v; p := p'
+  return (acc, p)
 def flist (t : Array String) (pos : Nat) : List Float × Nat :=
   let (a, p) := farr t pos; (a.toList, p)
 def narr (t : Array String) (pos : Nat) : Array Nat × Nat :=
@@ -236,6 +244,54 @@ def handle (t : Array String) : String :=
                        n_grid := t[7]!.toNat!, v_ra := vra, j := j, fwhm := fw, r_dt_bar := rb }
     toString d.reIdx ++ " " ++ toString d.grid.length ++ " " ++ pr [d.j, d.fwhm, d.v_ra, d.v_ax_sc, d.r_dt_bar] ++ " "
       ++ pr d.grid ++ " " ++ pr d.phi ++ " " ++ pr d.phiAxBarr ++ " " ++ pr (untriple d.ldu)
+  | "advrhs" =>
+    -- advrhs <12 option bits> maxSteps relDiff  scal[9]  ix  lb ub zs  q a eixs rrxs drxs  cxBg[] bgN0 cxTg[] tgCx  r phi0 l d u  ys[]
+    let ob := fun (i : Nat) => t[1 + i]! == "1"
+    let o : Adv.Options := ⟨ob 0, ob 1, ob 2, ob 3, ob 4, ob 5, ob 6, ob 7, ob 8, ob 9, ob 10, ob 11⟩
+    let maxSteps := t[13]!.toNat!; let relDiff := fb t[14]!
+    let (sc, p) := farr t 15
+    let ix := t[p]!.toNat!
+    let (lb, p) := narr t (p+1); let (ub, p) := narr t p; let (zs, p) := narr t p
+    let (q, p) := farr t p; let (a, p) := farr t p
+    let (eixs, p) := farr t p; let (rrxs, p) := farr t p; let (drxs, p) := farr t p
+    let (cxBg, p) := farrs t p; let (bgN0, p) := farr t p
+    let (cxTg, p) := farrs t p; let (tgcx, p) := narr t p
+    let (r, p) := farr t p; let (phi0, p) := farr t p
+    let (l, p) := flist t p; let (d, p) := flist t p; let (u, p) := flist t p
+    let (ys, _) := farrs t p
+    let m : Adv.Model Float :=
+      { nq := q.size, lb := lb.toList, ub := ub.toList, zs := zs.toList, q, a, eixs, rrxs, drxs, cxBg, bgN0, cxTg,
+        tgCx := tgcx.map (· == 1), r, phi0, ldu := triples l d u, ix,
+        r_e := sc[0]!, e_kin := sc[1]!, fwhm := sc[2]!, j := sc[3]!, v_ax := sc[4]!, v_ax_sc := sc[5]!, b_ax := sc[6]!,
+        r_dt := sc[7]!, current := sc[8]!, maxSteps, relDiff, opts := o }
+    let nq := q.size
+    let tab := fun (f : Nat → Float) => prA (Array.ofFn (n := nq) fun k => f k.val)
+    " | ".intercalate (ys.toList.map fun y =>
+      let res := Adv.rhs m y
+      let S := res.S
+      " ".intercalate [tab res.dn, tab res.dkT, prA S.R_ei, prA S.R_rr, prA S.R_dr, prA S.R_cx, prA S.R_ax, prA S.R_ra,
+        prA S.fei, prA S.iheat, prA S.sh, prA S.ct, prA S.ri, prA S.rself, prA S.w_ax, prA S.w_ra, prA S.e_ax, prA S.e_ra,
+        prA S.n3d, pr [S.e_kin, S.fwhm, S.v_ax, S.v_ra], prA S.phi])
+  | "advbuild" =>
+    -- advbuild e_kin fwhm  ntargets (Z a ip)*  gasIp
+    let e_kin := fb t[1]!; let fwhm := fb t[2]!
+    let nt := t[3]!.toNat!
+    let tg := (List.range nt).map fun i => (t[4 + 3*i]!.toNat!, fb t[5 + 3*i]!, fb t[6 + 3*i]!)
+    let (gip, _) := flist t (4 + 3*nt)
+    let b := Adv.build e_kin fwhm tg gip
+    let nl := fun (l : List Nat) => toString l.length ++ " " ++ " ".intercalate (l.map toString)
+    let fl := fun (l : List Float) => toString l.length ++ " " ++ pr l
+    " ".intercalate ([nl b.lb, nl b.ub, toString b.nq, nl b.q, fl b.a, fl b.eixs, fl b.rrxs, fl b.drxs,
+      toString b.cxBg.length] ++ b.cxBg.map fl ++ [toString b.cxTg.length] ++ b.cxTg.map fl)
+  | "advinit" =>
+    -- advinit fwhm ntargets (n kT)*
+    let fwhm := fb t[1]!
+    let nt := t[2]!.toNat!
+    let rec go (k : Nat) (p : Nat) (acc : List (List Float × List Float)) : List (List Float × List Float) :=
+      match k with
+      | 0 => acc.reverse
+      | k + 1 => let (n, p1) := flist t p; let (kT, p2) := flist t p1; go k p2 ((n, kT) :: acc)
+    pr (Adv.initial fwhm (go nt 3 []))
   | "chunks" =>
     " ".intercalate ((Chunks.indices t[1]!.toNat! t[2]!.toNat!).map fun ab => toString ab.1 ++ " " ++ toString ab.2)
   | _ => "bad-op"
